@@ -86,6 +86,11 @@ def _compare(out, table, V, maxlen, pred, inp, fails):
 
 def run_single(case):
     r = _run_single(case, None)
+    if 2 <= len(case["rules"]) <= 2 or (case["name"].startswith("sharp") and len(case["rules"]) >= 2):
+        r2 = _run_single(case, None, order=list(range(len(case["rules"])))[::-1])  # rules added in reverse order
+        r["evals"] += r2["evals"]
+        r["fails"] += r2["fails"]
+        r["counters"]["executions"] += r2["counters"]["executions"]
     var_of = gram.shared_vars(case_rules(case))
     if var_of is not None:
         # duplicate rules that are equal BY VALUE (same weight), as with numeric weights
@@ -144,7 +149,7 @@ def run_signed(case):
     return {"evals": evals, "nontrivial": 1, "fails": fails, "counters": {"executions": evals}}
 
 
-def _run_single(case, var_of):
+def _run_single(case, var_of, order=None):
     p = cfgp()
     rules = case_rules(case)
     V = case_terms(case)
@@ -155,10 +160,12 @@ def _run_single(case, var_of):
     nx = 0
     maxlen = p["maxlen"] if len(V) <= 2 else 2
     W0 = gram.poly_weights(len(rules)) if var_of is None else [Poly.var(v) for v in var_of]
-    g0 = gram.build(rules, Poly, W0, V=V)
+    if order is not None:
+        inp0["rule_order"] = "reversed"
+    g0 = gram.build(rules, Poly, W0, V=V, order=order)
     for name, _ in xforms.transformations(g0):
         # a fresh object per transformation: no cached state is shared between them
-        g = gram.build(rules, Poly, W0, V=V)
+        g = gram.build(rules, Poly, W0, V=V, order=order)
         thunk = dict(xforms.transformations(g))[name]
         try:
             out = thunk()
